@@ -30,6 +30,7 @@ from __future__ import annotations
 
 import contextlib
 import json
+import queue
 import struct
 import threading
 from typing import Any
@@ -43,10 +44,11 @@ from vf.kit import mem, prog
 PROPERTY = "C29"
 LEVEL = "model_checking"
 ENGINE = "E2-BFS"
-SHARDS = {"quick": 8, "thorough": 16}
+SHARDS = {"quick": 16, "thorough": 16}
 RULE = (
-    "BFS over histories (depth 2, one configuration depth 3 in quick; depth 3 everywhere in thorough) of calls from "
-    "a 40-event menu {unary ok/None/void/error/logs, produce x out{is,dict,empty} x client policy{release,keep,"
+    "BFS over histories (quick: depth 2 on 6 configurations + depth 3 with a 14-event last-call menu on one; thorough: "
+    "depth 3 with the full menu on one configuration, depth 3 with the 14-event last-call menu on 8, depth 2 on 6) of calls from "
+    "a 41-event menu {unary ok/None/void/error/logs, produce x out{is,dict,empty} x client policy{release,keep,"
     "alternate,late}, header+logs, mid-stream raise, take-k then close/cancel, exchange ok/raise/cancel/castable/"
     "dictionary/rejected input, request via shm pointer, release-oldest-kept} over segment data sizes "
     "{1, 1000, 9000, 65536 (+4 MiB thorough)} x SHM_MIN_BATCH_BYTES {0, 1, T}; every single-call history also over "
@@ -131,6 +133,9 @@ def build_menu() -> dict[str, dict[str, Any]]:
 
 
 MENU = build_menu()
+# reduced menu for the last call of the deepest histories where the full menu is too expensive (one per class)
+PROBE = ("u-ret", "p-is-rel", "p-is-keep", "p-dict-alt", "p-empty-keep", "p-take2-cancel-keep", "x-rel", "x-keep",
+         "x-raise-rel", "x-in-dict", "x-in-badname", "r-u-ret", "r-p-keep", "REL0")
 
 
 def make_input(spec: Any) -> Any:
@@ -245,6 +250,70 @@ class RawClient:
         return StreamSession(self.t.writer, self.t.reader, self.on_log, shm=self.seg)
 
 
+class _Job:
+    def __init__(self, server: Any, transport: Any) -> None:
+        self.server, self.transport = server, transport
+        self.done = threading.Event()
+        self.exc: BaseException | None = None
+        self.returned = False
+
+
+class ServePool:
+    """One persistent thread that runs ``server.serve(transport)`` jobs (thread creation costs ~10 ms in this
+    sandbox).  Same contract as ``mem.ServerThread``: when serve() returns or raises, the transport is closed."""
+
+    def __init__(self) -> None:
+        self.q: queue.SimpleQueue[_Job] = queue.SimpleQueue()
+        self.th: threading.Thread | None = None
+
+    def _loop(self, q: "queue.SimpleQueue[_Job]") -> None:
+        while True:
+            job = q.get()
+            try:
+                job.server.serve(job.transport)
+                job.returned = True
+            except BaseException as e:  # noqa: BLE001
+                job.exc = e
+            finally:
+                with contextlib.suppress(Exception):
+                    job.transport.close()
+                job.done.set()
+
+    def submit(self, server: Any, transport: Any) -> _Job:
+        if self.th is None or not self.th.is_alive():
+            self.q = queue.SimpleQueue()
+            self.th = threading.Thread(target=self._loop, args=(self.q,), daemon=True, name="vf-c29-serve")
+            self.th.start()
+        job = _Job(server, transport)
+        self.q.put(job)
+        return job
+
+    def abandon(self) -> None:
+        """The current job never returned: leave its thread behind and start a new one for the next job."""
+        self.th = None
+
+
+POOL = ServePool()
+ALLOCS = [0]  # successful ShmAllocator.allocate calls (instrument around the real method)
+
+
+def _install_alloc_counter() -> None:
+    import vgi_rpc.shm as M
+
+    if getattr(M.ShmAllocator.allocate, "_vf_counted", False):
+        return
+    real = M.ShmAllocator.allocate
+
+    def allocate(self: Any, size: int) -> Any:
+        r = real(self, size)
+        if r is not None:
+            ALLOCS[0] += 1
+        return r
+
+    allocate._vf_counted = True  # type: ignore[attr-defined]
+    M.ShmAllocator.allocate = allocate  # type: ignore[method-assign]
+
+
 def read_table(buf: Any, total: int) -> tuple[tuple[int, int], ...] | None:
     """Independent reader of the documented segment header (count: uint32 at 16, (offset,length) uint64 pairs at 24)."""
     (n,) = struct.unpack_from("<I", buf, 16)
@@ -300,6 +369,7 @@ class Result:
         self.bad: list[tuple[str, str]] = []
         self.stats: dict[str, int] = {}
         self.outcome: Any = None
+        self.depth = 0
 
 
 def run_history(cfg: dict[str, Any], hist: tuple[str, ...]) -> Result:
@@ -309,14 +379,17 @@ def run_history(cfg: dict[str, Any], hist: tuple[str, ...]) -> Result:
     from vgi_rpc.rpc import make_pipe_pair
 
     res = Result()
-    st = res.stats = {"shm_batches": 0, "inline_batches": 0, "kept_checks": 0, "calls": 0, "regions_seen_max": 0}
+    res.depth = len(hist)
+    st = res.stats = {"shm_batches": 0, "inline_batches": 0, "kept_checks": 0, "calls": 0, "regions_seen_max": 0, "regions_allocated": 0}
+    _install_alloc_counter()
+    a0 = ALLOCS[0]
     old_min = M.SHM_MIN_BATCH_BYTES
     M.SHM_MIN_BATCH_BYTES = cfg["min"]
     c, s = mem.make_mem_pair() if cfg["pipe"] == "mem" else make_pipe_pair()
     seg = M.ShmSegment.create(HDR + cfg["size"])
     ct, stt = ShmPipeTransport(c, seg), ShmPipeTransport(s, seg)
     server = RpcServer(prog.ScriptSvc, prog.ScriptImpl())
-    sth = mem.ServerThread(server, stt).start()
+    sth = POOL.submit(server, stt)
     kept: list[dict[str, Any]] = []  # {"ab", "twin", "desc", "region"}
     watchdog: threading.Timer | None = None
     if cfg["pipe"] != "mem":
@@ -415,13 +488,14 @@ def run_history(cfg: dict[str, Any], hist: tuple[str, ...]) -> Result:
                 d = same_batch(k["ab"].batch, k["twin"])
                 if d:
                     bad.append((f"kept-batch-changed:{ev['cls']}", f"{where}: kept batch {k['desc']} (region={k['region']}) no longer equals its inline twin: {d}"))
-            if not sth.alive():
+            if sth.done.is_set():
                 bad.append((f"server-died:{ev['cls']}", f"{where}: serve loop ended: {sth.exc!r}"))
             if last:
                 res.bad = bad
         tab = read_table(seg.buf, total)
         res.table = tab if tab is not None else ((-1, -1),)
         res.kept = tuple((k["desc"], k["region"]) for k in kept)
+        st["regions_allocated"] = ALLOCS[0] - a0
         return res
     finally:
         M.SHM_MIN_BATCH_BYTES = old_min
@@ -432,7 +506,9 @@ def run_history(cfg: dict[str, Any], hist: tuple[str, ...]) -> Result:
         del kept[:]
         with contextlib.suppress(Exception):
             ct.close()
-        sth.th.join(15)
+        if not sth.done.wait(20):
+            POOL.abandon()
+            res.bad.append(("server-hung", f"[{cfg['label']}] history {list(hist)}: serve() did not return after the client closed the transport"))
         with contextlib.suppress(Exception):
             stt.close()
         try:
@@ -454,15 +530,21 @@ def configs(ctx: Ctx) -> list[dict[str, Any]]:
     sizes = [1, 1000, 9000, 65536] + ([4 << 20] if ctx.thorough else [])
     for size in sizes:
         for mn in (1, 0, T):
-            depth = 3 if ctx.thorough else (3 if (size, mn) == (9000, 1) else 2)
+            # "full" = number of leading calls drawn from the full menu; deeper calls come from PROBE
+            if ctx.thorough:
+                depth, full = (3, 3) if (size, mn) == (9000, 1) else ((2, 2) if size == 4 << 20 else (3, 2))
+            else:
+                if mn != 1 and size != 9000:
+                    continue
+                depth, full = (3, 2) if (size, mn) == (9000, 1) else (2, 2)
             if size == 1:
-                depth = min(depth, 2)  # nothing ever fits: every history returns to the initial state
-            out.append({"size": size, "min": mn, "pipe": "mem", "depth": depth})
+                depth, full = 2, 2  # nothing ever fits: every history returns to the initial state
+            out.append({"size": size, "min": mn, "pipe": "mem", "depth": depth, "full": full})
     # every single-call history also over real OS pipes
     for size, mn in ((9000, 1), (65536, 0)) if ctx.quick else ((1000, 1), (9000, 1), (65536, 0), (65536, T)):
-        out.append({"size": size, "min": mn, "pipe": "os", "depth": 1})
+        out.append({"size": size, "min": mn, "pipe": "os", "depth": 1, "full": 1})
     for c in out:
-        c["label"] = f"shm:{c['pipe']}:S{c['size']}:M{c['min']}:D{c['depth']}"
+        c["label"] = f"shm:{c['pipe']}:S{c['size']}:M{c['min']}:D{c['depth']}:F{c['full']}"
     return out
 
 
@@ -479,7 +561,8 @@ def explore(ctx: Ctx, cfg: dict[str, Any]) -> None:
         return r
 
     def enabled(r: Result) -> list[str]:
-        return [n for n in MENU if n != "REL0" or r.kept]
+        menu = PROBE if r.depth >= cfg["full"] else tuple(MENU)
+        return [n for n in menu if n != "REL0" or r.kept]
 
     def invariant(r: Result, hist: tuple[Any, ...]) -> Any:
         return r.bad[0] if r.bad else None
@@ -495,15 +578,15 @@ def explore(ctx: Ctx, cfg: dict[str, Any]) -> None:
 
 def run(ctx: Ctx) -> None:
     ctx.extra.update({"histories": 0, "shm_batches": 0, "inline_batches": 0, "kept_checks": 0, "calls": 0,
-                      "max_regions_seen": 0, "max_depth_reached": 0, "max_configs": 0})
+                      "regions_allocated": 0, "max_regions_seen": 0, "max_depth_reached": 0, "max_configs": 0})
     for cfg in configs(ctx):
         ctx.extra["max_configs"] += 1
         explore(ctx, cfg)  # sharded inside by first event
 
 
 def replay(ctx: Ctx, case: dict[str, Any]) -> None:
-    _, pipe, size, mn, depth = case["harness"].split(":")
-    cfg = {"size": int(size[1:]), "min": int(mn[1:]), "pipe": pipe, "depth": int(depth[1:]), "label": case["harness"]}
+    _, pipe, size, mn, depth, full = case["harness"].split(":")
+    cfg = {"size": int(size[1:]), "min": int(mn[1:]), "pipe": pipe, "depth": int(depth[1:]), "full": int(full[1:]), "label": case["harness"]}
     r = run_history(cfg, tuple(case["history"]))
     for k, m in r.bad:
         ctx.fail(k, m, case)
